@@ -831,7 +831,7 @@ def run(tier):
     # ---- thorough: sanitizer build as supporting evidence
     san = {}
     if tier == "thorough":
-        san = sanitizer_pass(seqs, streams, rjobs, table, skmax, corrupt, rng, bad)
+        san = sanitizer_pass(seqs, streams, rjobs, table, skmax, corrupt, rng, bad, mcors, diffs)
 
     # ---- evidence
     modes_needed = ["palette_le_32", "direct_no_palette", "zero_runs", "uncompressed_palette", "uncompressed_direct",
@@ -886,7 +886,7 @@ def run(tier):
     return res.finish()
 
 
-def sanitizer_pass(seqs, streams, rjobs, table, skmax, corrupt, rng, bad):
+def sanitizer_pass(seqs, streams, rjobs, table, skmax, corrupt, rng, bad, mcors=None, diffs=None):
     """ASan/UBSan build of the C sources of the repository under test: same inputs, streams must equal the
     extension's, no sanitizer report.  Supporting evidence only."""
     info = {}
@@ -963,22 +963,48 @@ def sanitizer_pass(seqs, streams, rjobs, table, skmax, corrupt, rng, bad):
             seen_sites.add((r0["error"], r0["function"]))
             bad.append(({"kind": "sanitizer", "error": r0["error"], "function": r0["function"]}, dict(r0, build=name, reports_in_this_build=len(reports)),
                         "ASan/UBSan build (%s) of the codec: %s at %s in %s on input %s" % (name, r0["error"], r0["site"], r0["function"], r0["input_line"][:60])))
-        # corrupted streams through the sanitized decoder, one process each (it exits on underrun)
-        if ndebug:
-            sub = corrupt[:600]
-            creports = 0
-            first = None
+        # corrupted streams through the sanitized decoder, one process each (it exits on underrun / aborts on an assert)
+        sub_i = list(range(min(600, len(corrupt))))
+        if not ndebug and mcors is not None:
+            sub_i += [i for i in range(600, len(corrupt)) if mcors[i][0] == 2][:400]
+        creports = 0
+        first = None
+        strict_cmp = strict_diff = 0
+        asserts = ["z_grc_div<4 || z_grc_div==ZDIV_DISABLE", "new_palette", "use_zero_run == prev_use_zero_run", "w_grc_div<6", "w_value[i]<512"]
 
-            def dec(s):
-                return run_sanitized(exe, ["D %d %s" % (len(s), " ".join(map(str, s)))], timeout=120)
-            with concurrent.futures.ThreadPoolExecutor(max_workers=vlib.NCPU) as ex:
-                for s, (rc, out, err) in zip(sub, ex.map(dec, sub)):
-                    if "ERROR: AddressSanitizer" in err or "runtime error" in err:
-                        creports += 1
-                        first = first or {"stream": s.hex(), "stderr": err[-1200:]}
-            info[name]["corrupted_streams_decoded"] = len(sub)
-            info[name]["corrupted_sanitizer_reports"] = creports
-            if first:
-                info[name]["corrupted_first_report"] = first
-                bad.append(({"kind": "sanitizer_decoder", "build": name}, first, "ASan/UBSan build of the reference decoder reports an error on a corrupted stream"))
+        def dec(i):
+            s_ = corrupt[i]
+            return run_sanitized(exe, ["D %d %s" % (len(s_), " ".join(map(str, s_)))], timeout=120)
+        with concurrent.futures.ThreadPoolExecutor(max_workers=vlib.NCPU) as ex:
+            for i, (rc, out, err) in zip(sub_i, ex.map(dec, sub_i)):
+                if "ERROR: AddressSanitizer" in err or "runtime error" in err:
+                    creports += 1
+                    first = first or {"stream": corrupt[i].hex(), "stderr": err[-1200:]}
+                    continue
+                if not ndebug and mcors is not None:
+                    # the model with strict=true against the C source with assertions enabled
+                    m = mcors[i]
+                    if rc == 0 and out and out[0].startswith("D "):
+                        got = [1] + [int(x) for x in out[0].split()[2:]]
+                    elif rc == 1:
+                        got = [0]
+                    elif rc == -6 and "Assertion" in err:
+                        code = next((k + 1 for k, a in enumerate(asserts) if "`" + a + "'" in err), -1)
+                        got = [2, code]
+                    else:
+                        continue
+                    strict_cmp += 1
+                    if got != m:
+                        strict_diff += 1
+                        if diffs is not None:
+                            diffs.append(({"correspondence": "decode strict vs C with assertions", "n": len(corrupt[i])},
+                                          {"stream": corrupt[i].hex(), "model": m[:60], "impl": got[:60], "stderr": err[-300:]}))
+        info[name]["corrupted_streams_decoded"] = len(sub_i)
+        info[name]["corrupted_sanitizer_reports"] = creports
+        if not ndebug:
+            info[name]["strict_model_vs_assert_build_compared"] = strict_cmp
+            info[name]["strict_model_vs_assert_build_differences"] = strict_diff
+        if first:
+            info[name]["corrupted_first_report"] = first
+            bad.append(({"kind": "sanitizer_decoder", "build": name}, first, "ASan/UBSan build of the reference decoder reports an error on a corrupted stream"))
     return info
